@@ -14,10 +14,13 @@ import (
 	"golang.org/x/tools/go/ssa"
 )
 
-// Size thresholds derived from the code under test ("derive bounds from the code"): the integer constants (4..1024) that
+// Size thresholds derived from the code under test ("derive bounds from the code"): the integer constants (4..300) that
 // the functions named by a filter - and the repository functions they call - compare something with, or use as a channel
 // capacity. vfProbe offers, next to the harness's own small sizes, sizes just beyond each such constant, so that a
 // fast path / cap / batch limit in the CURRENT source is straddled without the harness knowing the number.
+
+// probeMaxConstant: larger size constants are not probed (an at-scale harness at 1025 elements runs into the step limit)
+const probeMaxConstant = 300
 
 var thresholdCache sync.Map // *ssa.Function -> []int64 (direct size constants)
 var durationCache sync.Map  // *ssa.Function -> []int64 (direct time.Duration constants, ns)
@@ -99,7 +102,7 @@ func directThresholds(fn *ssa.Function) []int64 {
 		if !ok || c.Value == nil || c.Value.Kind() != constant.Int {
 			return
 		}
-		if n, exact := constant.Int64Val(c.Value); exact && n >= 4 && n <= 1024 {
+		if n, exact := constant.Int64Val(c.Value); exact && n >= 4 && n <= probeMaxConstant {
 			out = append(out, n)
 		}
 	}
